@@ -3,7 +3,7 @@ from checks import krill_common as kc
 
 PID = "C03"
 LEVEL = "model_checking"
-THEMES = "life,roll".split(",")
+THEMES = "life,roll,multi".split(",")
 NEEDED = "Settled".split(",")
 
 RULE = (
@@ -61,7 +61,8 @@ def run(tier, seed):
         quick_num=12 if len(THEMES) > 1 else 24, thorough_num=250,
         assumptions=kc.COMMON_ASSUMPTIONS, rule=RULE, needed_events=NEEDED,
         mc_cfgs=(['MC_Krill_q_roll.cfg', 'MC_Krill_q_life.cfg'] if tier == "quick" else ['MC_Krill_q_roll.cfg', 'MC_Krill_q_life.cfg', 'MC_Krill_roll.cfg', 'MC_Krill_life.cfg']),
-        directed=DIRECTED)
+        directed=DIRECTED + kc.MULTI_DIRECTED,
+        theme_nums={"multi": (6, 80)})
 
 
 def replay(path, seed):
